@@ -415,6 +415,51 @@ theorem legacy_initial_incoherent :
       (LegacySimInitial k0 q v).kin ≠ FK (LegacySimInitial k0 q v).src.1 (LegacySimInitial k0 q v).src.2 :=
   ⟨fun q v => q + v + 1, 0, 0, 0, by decide⟩
 
+/-- **`forces_fresh_after_step`** — after every transition (any frame skip, action, integrator, from any
+    state) the cached contact forces are those of the state reached, computed by the post-constraint
+    pass; at a reset they are the zero placeholder — on the lerax side exactly as on Gymnasium's
+    (`do_simulation` = `mj_step × frame_skip ; mj_rnePostConstraint`). -/
+theorem forces_fresh_after_step {F : Type} (FK : Q → V → K) (integ : Q → V → K → A → Q × V)
+    (RNE : Q → V → F) (n : Nat) (s : SimF Q V K F) (a : A) :
+    (simFTransition FK integ RNE n s a).frc =
+      some (RNE (simFTransition FK integ RNE n s a).sim.qpos (simFTransition FK integ RNE n s a).sim.qvel) ∧
+    (simFTransition FK integ RNE n s a).sim = simTransition FK integ n s.sim a ∧
+    (simFInitial FK s.sim.qpos s.sim.qvel : SimF Q V K F).frc = none := ⟨rfl, rfl, rfl⟩
+
+theorem forces_fresh_foldl {F : Type} (FK : Q → V → K) (integ : Q → V → K → A → Q × V)
+    (RNE : Q → V → F) (n : Nat) (as : List A) (hne : as ≠ []) (s0 : SimF Q V K F) :
+    (as.foldl (simFTransition FK integ RNE n) s0).frc =
+      some (RNE (as.foldl (simFTransition FK integ RNE n) s0).sim.qpos
+                (as.foldl (simFTransition FK integ RNE n) s0).sim.qvel) := by
+  induction as generalizing s0 with
+  | nil => exact absurd rfl hne
+  | cons a rest ih =>
+      cases rest with
+      | nil => rfl
+      | cons b rest' => exact ih (by simp) (simFTransition FK integ RNE n s0 a)
+
+/-- along every rollout from a reset the forces read by observation / reward after step `t ≥ 1` are the
+    forces of that step's state -/
+theorem forces_fresh_along_rollout {F : Type} (FK : Q → V → K) (integ : Q → V → K → A → Q × V)
+    (RNE : Q → V → F) (n : Nat) (q : Q) (v : V) (as : List A) (hne : as ≠ []) :
+    let s := as.foldl (simFTransition FK integ RNE n) (simFInitial FK q v)
+    s.frc = some (RNE s.sim.qpos s.sim.qvel) :=
+  forces_fresh_foldl FK integ RNE n as hne _
+
+theorem legacy_forces_foldl {F : Type} (FK : Q → V → K) (integ : Q → V → K → A → Q × V)
+    (n : Nat) (as : List A) (s0 : SimF Q V K F) :
+    (as.foldl (LegacySimFTransition FK integ n) s0).frc = s0.frc := by
+  induction as generalizing s0 with
+  | nil => rfl
+  | cons a rest ih => exact ih (LegacySimFTransition FK integ n s0 a)
+
+/-- the pre-repair transition never refreshes the forces: from a reset they stay the zero placeholder
+    for ever, whatever the contact forces of the states visited are -/
+theorem legacy_forces_never_computed {F : Type} (FK : Q → V → K) (integ : Q → V → K → A → Q × V)
+    (n : Nat) (q : Q) (v : V) (as : List A) :
+    (as.foldl (LegacySimFTransition (F := F) FK integ n) (simFInitial FK q v)).frc = none :=
+  legacy_forces_foldl FK integ n as _
+
 end kin
 
 /-! ### pre-repair assembly differs from Gymnasium (witnesses over ℚ) -/
